@@ -23,6 +23,7 @@ import re
 
 import impl
 import gens
+import c20_nodes
 from wire import Ok, Err, oracle_batch, oracle1, r_result, r_opt, Some
 import pycaption
 from pycaption import (DFXPReader, MicroDVDReader, WebVTTReader, SAMIReader, SRTReader, SCCReader,
@@ -411,7 +412,7 @@ def judge_own(fmt, cs, info, res, docs_out=None):
     res["violations"].append(v)
 
 
-def run_own_output(ctx, res, n, docs_out):
+def run_own_output(ctx, res, n, docs_out, sets_out=None):
     cases = boundary_cases()
     for i in range(n):
         fmt = WRITERS[i % len(WRITERS)]
@@ -425,6 +426,8 @@ def run_own_output(ctx, res, n, docs_out):
             cases.append((fmt, cs, info))
     for fmt, cs, info in cases:
         judge_own(fmt, cs, info, res, docs_out)
+        if sets_out is not None and info["ncaps"] <= 60:
+            sets_out.append((fmt[0], cs))
 
 
 # ------------------------------------------------------------------------------------------------ stream C
@@ -504,6 +507,11 @@ def shape_request(name, doc):
         if not doc.startswith(head):
             return None
         return (2002, [5, doc[len(head):]])
+    if name == "DFXP":                       # skeleton: anything, the root element's closing tag, anything
+        k = doc.rfind("</tt>")
+        return (2002, [0, doc[:k], doc[k + 5:]]) if k >= 0 else None
+    if name == "SAMI":                       # skeleton: opens with the <sami root tag
+        return (2002, [3, doc[5:]]) if doc.startswith("<sami") else None
     return None
 
 
@@ -514,7 +522,8 @@ def run_shapes(res, judged):
     dist = res["distribution"]
     reqs, items = [], []
     for name, doc in judged:
-        if name in ("DFXP", "SAMI"):
+        if name in ("DFXP", "SAMI") and len(doc) > 30000:
+            bump(dist, "F_skeleton_instance_not_sent_document_over_30000_chars_" + name)
             continue
         rq = shape_request(name, doc)
         if rq is None:
@@ -540,7 +549,7 @@ def run_shapes(res, judged):
 
 def run(ctx):
     res = {"evaluations": 0, "nontrivial": set(), "violations": [], "disagreements": [], "distribution": {},
-           "streams": 6, "notes": []}
+           "streams": 7, "notes": []}
     dist = res["distribution"]
     rng = ctx.rng
     # E: marker boundary cases (sniffer-level, alarm level)
@@ -575,8 +584,11 @@ def run(ctx):
     check_strings(rs, res, "C")
     # D: own output (collects the complete documents for B)
     judged = []
-    run_own_output(ctx, res, ctx.n(240, 6000), judged)
+    sets = []
+    run_own_output(ctx, res, ctx.n(240, 6000), judged, sets)
     docs = [d for _, d in judged]
+    # G: the writer models that start from the text nodes, against the real writers (request 2003)
+    c20_nodes.run_nodes(ctx, res, sets)
     # F: writer outputs as instances of the own-output theorems
     run_shapes(res, judged)
     # B: complete documents + truncations
@@ -610,9 +622,18 @@ def run(ctx):
                     "generated SUPPORTED_READERS order = documented order; generated sniffing constants = the documented ones",
                     "empty string raises no-captions",
                     "model: own output of the SCC / SRT / MicroDVD / WebVTT document shapes is detected as its own format "
-                    "under marker-freeness (see design/C20.md for the exact hypotheses)"],
+                    "under marker-freeness (see design/C20.md for the exact hypotheses)",
+                    "writer models FROM THE TEXT NODES (model/OwnWrite.v): every SRT / MicroDVD document of a caption set whose "
+                    "caption texts carry no earlier format's marker, and every WebVTT document whatever the text, is "
+                    "detected as its own format (C20_own_nodes_srt / _mdvd / _vtt)",
+                    "DFXP / SAMI skeletons: a document containing </tt> is DFXP; a document opening with <sami and "
+                    "carrying neither </tt> nor WEBVTT is SAMI"],
         "correspondence_only": ["detect_format iterates SUPPORTED_READERS and calls reader().detect (streams A-C via the oracle)",
-                                "own output is detected as its own format and read back (stream D), DFXP/SAMI entirely",
+                                "own output is read back by its reader (stream D); DFXP / SAMI documents (bs4) are instances of the "
+                                "skeleton shapes (stream F)",
+                                "the SRT / MicroDVD / WebVTT writer models equal the real writers (stream G, request 2003); "
+                                "WebVTT with layout / Caption.style / style classes, float times and the SCC writer are outside "
+                                "the node-level models",
                                 "real writer outputs have the document shapes of the own-output theorems",
                                 "the hand-written sniffer bodies (markers generated, boundary cases stream E)",
                                 "str.lower on non-ASCII code points as far as an ASCII marker can see it (decision 5)"]}
@@ -635,4 +656,9 @@ def replay(ctx, rec):
             rd = impl.call(lambda: R().read(doc), timeout=120)
             good = isinstance(rd, Ok)
         return (not good), repr(det)
+    if rec.get("replay") == "own-detect":
+        doc = rec["document"]
+        R = dict((n, r) for n, _, r in WRITERS)[rec["fmt"]]
+        det = impl.call(lambda: pycaption.detect_format(doc))
+        return (not (isinstance(det, Ok) and det.v is R)), repr(det)
     return False, "unknown replay kind"
